@@ -408,3 +408,106 @@ def _(tier, rng):
         for v in (-1, 0, 1, 4, 5, 9, 10, 11, 1000):
             yield dict(attr=attr, value=v, value_is_int=True)
         yield dict(attr=attr, value=0, value_is_int=False)
+
+
+# ------------------------------------------------------------------ XMLSchemaBase.decode: shaping of the yielded stream
+t = Target('schemas.XMLSchemaBase.decode', ['C04'], 'xmlschema/validators/schemas.py', 'XMLSchemaBase.decode',
+           note='with Y the sequence yielded by iter_decode(same arguments): strict raises the first error item of Y (and only then), otherwise the result is shaped from '
+                'ALL data items of Y in order (none -> None, one -> the item, several -> the list); lax returns (data, all error items of Y in order); the whole of Y is '
+                'consumed, so errors yielded after the data (the end-of-document reference checks) count',
+           assumes=['iter_decode is the ghost sequence Y; items are classified by an uninterpreted predicate is_error'])
+
+
+@t.symbolic
+def _(run):
+    from xmlschema.validators.exceptions import XMLSchemaValidationError
+    ex = run.exec(); st = new_state()
+    Y = z3.Const('Y', z3.SeqSort(Ref)); n = z3.Length(Y); is_err = z3.Function('is_error', Ref, B)
+    fD = z3.RecFunction('data_prefix', I, z3.SeqSort(Ref)); fE = z3.RecFunction('error_prefix', I, z3.SeqSort(Ref)); i_ = z3.Int('i_')
+    z3.RecAddDefinition(fD, [i_], z3.If(i_ <= 0, z3.Empty(z3.SeqSort(Ref)), z3.Concat(fD(i_ - 1), z3.If(is_err(Y[i_ - 1]), z3.Empty(z3.SeqSort(Ref)), z3.Unit(Y[i_ - 1])))))
+    z3.RecAddDefinition(fE, [i_], z3.If(i_ <= 0, z3.Empty(z3.SeqSort(Ref)), z3.Concat(fE(i_ - 1), z3.If(is_err(Y[i_ - 1]), z3.Unit(Y[i_ - 1]), z3.Empty(z3.SeqSort(Ref))))))
+    validation = z3.String('validation')
+    for a in ex.fn.args.args + ex.fn.args.kwonlyargs:
+        if a.arg != 'self': st.env[a.arg] = OPAQUE
+    st.env['args'] = OPAQUE; st.env['kwargs'] = OPAQUE
+    st.env['validation'] = VStr(validation); st.objf['self'] = {}; st.env['self'] = VObj('self')
+    ex.callees['isinstance'] = lambda e, s, r, a, k: VBool(is_err(a[0].t))
+    ex.names['XMLSchemaValidationError'] = OPAQUE
+    ex.key = lambda v, o=ex.key: v.t if isinstance(v, VRef) else o(v)
+    # `data, errors = ([], [])`: two fresh lists of references
+    orig_list = ex.e_List
+    ex.e_List = lambda e, s: s.new_list(z3.Empty(z3.SeqSort(Ref)), Ref) if not e.elts else orig_list(e, s)
+    k = z3.Int('k')
+
+    def cells(s): return s.heap[s.env['data'].cell]['seq'], s.heap[s.env['errors'].cell]['seq']
+
+    def inv(s, i):
+        d, e = cells(s)
+        return z3.And(d == fD(i), e == z3.If(validation == SV('lax'), fE(i), z3.Empty(z3.SeqSort(Ref))),
+                      z3.Implies(validation == SV('strict'), z3.ForAll([k], z3.Implies(z3.And(k >= 0, k < i), z3.Not(is_err(Y[k]))))))
+
+    def loop(e, node, s):
+        if 'iter_decode' not in ast.unparse(node.iter): raise Unsupported('loop header drifted')
+        e.oblige('loop-entry', s, inv(s, z3.IntVal(0))); outs = []
+        i = z3.FreshConst(I, 'i'); sb = s.fork()
+        for nm_ in ('data', 'errors'): sb.heap[sb.env[nm_].cell]['seq'] = z3.FreshConst(z3.SeqSort(Ref), nm_)
+        sb.pc += [i >= 0, i < n, inv(sb, i)]; sb.env[node.target.id] = VRef(Y[i]); sb.ghost['i'] = i
+        for kind, val, s2 in e.block(node.body, sb):
+            if kind in ('fall', 'continue'): e.oblige('loop-preserve', s2, inv(s2, i + 1))
+            else: outs.append((kind, val, s2))
+        se = s.fork()
+        for nm_ in ('data', 'errors'): se.heap[se.env[nm_].cell]['seq'] = z3.FreshConst(z3.SeqSort(Ref), nm_ + '_end')
+        se.pc.append(inv(se, n)); se.ghost['i'] = None
+        outs.append(('fall', None, se)); return outs
+    ex.s_For = lambda node, s: loop(ex, node, s)
+    modes = z3.Or(validation == SV('strict'), validation == SV('lax'), validation == SV('skip'))
+    outs = ex.run(st, modes)
+
+    def post(kind, v, s):
+        i = s.ghost.get('i')
+        if kind == 'raise':
+            if i is None or not (isinstance(v, VExc) and isinstance(v.obj, VRef)): return z3.BoolVal(False)
+            return z3.And(validation == SV('strict'), is_err(Y[i]), v.obj.t == Y[i], z3.ForAll([k], z3.Implies(z3.And(k >= 0, k < i), z3.Not(is_err(Y[k])))))
+        if kind != 'return' or i is not None: return z3.BoolVal(False)
+        d, e = cells(s); D = fD(n)
+        def shaped(x):   # x: the data part of the result
+            if isinstance(x, VNone): return z3.Length(D) == 0
+            if isinstance(x, VRef): return z3.And(z3.Length(D) == 1, x.t == D[0])
+            if isinstance(x, VList): return z3.And(z3.Length(D) >= 2, s.heap[x.cell]['seq'] == D)
+            return z3.BoolVal(False)
+        if isinstance(v, VTuple) and len(v.items) == 2:
+            errs_ok = s.heap[v.items[1].cell]['seq'] == fE(n) if isinstance(v.items[1], VList) else z3.BoolVal(False)
+            return z3.And(validation == SV('lax'), shaped(v.items[0]), errs_ok)
+        return z3.And(validation != SV('lax'), shaped(v), z3.Implies(validation == SV('strict'), z3.ForAll([k], z3.Implies(z3.And(k >= 0, k < n), z3.Not(is_err(Y[k]))))))
+    run.post(ex, outs, modes, {'result-shaped-from-the-whole-stream': post})
+    run.vc('all-arguments-forwarded-to-iter_decode', modes, [], z3.BoolVal(any(
+        isinstance(c, ast.Call) and ast.unparse(c.func) == 'self.iter_decode' and [ast.unparse(a) for a in c.args] == ['source', 'path', 'schema_path', 'validation', '*args']
+        and [ast.unparse(kw.value) for kw in c.keywords if kw.arg is None] == ['kwargs'] for c in ast.walk(ex.fn))))
+
+
+@t.concrete
+def _(inp):
+    import xmlschema
+    from xmlschema.validators.exceptions import XMLSchemaValidationError
+    s = _real_ctx()[0]
+    items = [XMLSchemaValidationError(s, 'x', f'err{i}') if c == 'e' else {'data': i} for i, c in enumerate(inp['stream'])]
+    s.iter_decode = lambda *a, **k: iter(items)            # ghost sequence Y supplied to the REAL decode()
+    try:
+        try: got = s.decode('<a/>', validation=inp['validation']); raised = None
+        except XMLSchemaValidationError as e: got = None; raised = e
+    finally:
+        del s.iter_decode
+    data = [x for x in items if not isinstance(x, XMLSchemaValidationError)]; errs = [x for x in items if isinstance(x, XMLSchemaValidationError)]
+    shape = None if not data else data[0] if len(data) == 1 else data
+    if inp['validation'] == 'strict' and errs: ok = raised is errs[0]; want = 'raises the first error'
+    elif inp['validation'] == 'lax': ok = raised is None and isinstance(got, tuple) and got[0] == shape and len(got[1]) == len(errs) and all(a is b for a, b in zip(got[1], errs)); want = '(shape(data), errors)'
+    else: ok = raised is None and got == shape; want = 'shape(data)'
+    return dict(ok=ok, observed=f'raised={raised is not None} result={str(got)[:80]}', required=want)
+
+
+@t.scope
+def _(tier, rng):
+    import itertools
+    for n in range(0, 4):
+        for stream in itertools.product('de', repeat=n):
+            for v in ('strict', 'lax', 'skip'): yield dict(stream=''.join(stream), validation=v)
